@@ -44,6 +44,8 @@ def run(ctx):
     _c01.r126(ctx, 'R4.13')    # stored bounds are decoded through converted_types.convert
     c20.r202(ctx)            # pf[i].statistics must be computed for the slice, not inherited
     from . import callsigs as _cs
+    from . import findings3 as _f3
+    _f3.statistics_decoding(ctx, 'R4.14')
     _cs.general_rules(ctx, 'R4', ['writer.write', 'writer.write_simple', 'writer.write_multi', 'writer.make_row_group', 'writer.make_part_file', 'writer.partition_on_columns', 'api.statistics', 'api.sorted_partitioned_columns'])
 
 
@@ -285,10 +287,18 @@ def r48(ctx, api, rule='R4.8'):
             bad.append(norm(x.iter) + ' if ' + ' and '.join(norm(i) for i in x.ifs))
     ctx.ob(rule, 'api.statistics:per-row-group-lists-are-never-filtered', not bad,
            'filtering %s drops the entries of row groups without a value: the remaining values are attributed to the wrong row groups' % bad, api.loc(f))
-    s = src(f)
-    ctx.ob(rule, 'api.statistics:a-missing-entry-collapses-the-column-to-the-placeholder',
-           'None in d[name][column]' in norm(ast.parse(s)) if False else 'None in d[name][column]' in ' '.join(norm(x) for x in walk_no_nested(f) if isinstance(x, ast.Compare)),
-           'the [None] placeholder is chosen when any row group lacks the value', api.loc(f))
+    # a row group without the bound keeps its None and the others keep their places: the converted list is rebuilt by
+    # walking the original list entry by entry (the design round had frozen the opposite - "one missing entry turns the
+    # whole column into [None]" - which a hunting report showed to break sorted_partitioned_columns; repaired in 809c534)
+    rebuilt = []
+    for st in walk_no_nested(f):
+        if isinstance(st, ast.Assign) and norm(st.targets[0]) == 'd[name][column]' and isinstance(st.value, ast.ListComp):
+            gen = st.value.generators
+            rebuilt.append(len(gen) == 1 and not gen[0].ifs and norm(gen[0].iter) in ('vals', 'd[name][column]')
+                           and isinstance(st.value.elt, ast.IfExp) and 'is None' in norm(st.value.elt.test))
+    collapses = any('None in d[name][column]' in norm(x) or 'None in vals' in norm(x) for x in walk_no_nested(f) if isinstance(x, ast.Compare))
+    ctx.ob(rule, 'api.statistics:a-missing-entry-stays-a-single-None-in-its-place', bool(rebuilt) and all(rebuilt) and not collapses,
+           'converted bounds must come back as one entry per row group, None where a row group has none', api.loc(f))
     g = api.func('sorted_partitioned_columns')
     sel = [st for st in iter_child_stmts(g.body) if isinstance(st, ast.Assign) and norm(st.targets[0]) == 's[stat][col]']
     ok = len(sel) == 1 and isinstance(sel[0].value, ast.ListComp) and len(sel[0].value.generators) == 1 \
